@@ -43,3 +43,6 @@ def check(ctx):
     ctx.floor("UNITS-mps", 6)
     ctx.floor("HERM", 4)
     drivers.run_loops(ctx)
+    drivers.progress_dispatch(ctx)
+    drivers.init_sequence(ctx)
+    drivers.sweep_boundaries(ctx)
